@@ -1,6 +1,9 @@
 package main
 
 import (
+	"sync"
+	"sync/atomic"
+
 	"bytes"
 	"fmt"
 	"strings"
@@ -223,7 +226,7 @@ func c17Types() []c17Type {
 					}
 					return [][]byte{nil, []byte("-1"), []byte("1.5kB"), []byte("10XB"), []byte("99999999999999999999999"), []byte("16EiB"), bytes.Repeat([]byte("1"), 200), mutateBytes(r, []byte(text+"!"))}[r.Intn(8)], nil
 				}
-				docs := []string{fmt.Sprint(val), `"` + text + `"`, fmt.Sprintf(`{"value":%d,"unit":"KiB"}`, val), fmt.Sprintf(`{"x":[1,{"value":2}],"UNIT":"B","Value":%d}`, val)}
+				docs := []string{fmt.Sprint(val), `"` + text + `"`, `"` + strings.ReplaceAll(fmt.Sprintf("%d %s", val, unit), " ", `\u00a0`) + `"`, `"\u0031` + text + `\t"`[:0] + `"\u0031` + text[1:] + `"`, fmt.Sprintf(`{"value":%d,"unit":"KiB"}`, val), fmt.Sprintf(`{"x":[1,{"value":2}],"UNIT":"B","Value":%d}`, val)}
 				if wantValid {
 					return []byte(docs[r.Intn(len(docs))]), nil
 				}
@@ -492,6 +495,102 @@ func runC17(c *rt.Ctx) {
 		c.Require(t.name+"-failure-right-after-success", 10000)
 		c.Require(t.name+"-successful-decode", 10000)
 	}
+	// buffers shared read-only between goroutines: some parse them over and over, others only look at
+	// them. A parser that changes its input and restores it before returning is invisible to a
+	// before/after snapshot of a private buffer, but not to a concurrent reader.
+	{
+		var shared [][]byte
+		var snaps []string
+		gen := rt.NewRand(c.Seed, "C17/shared", 0)
+		for _, t := range c17Types() {
+			for k := 0; k < 12; k++ {
+				in, _ := t.gen(gen, 0, k%4 != 3)
+				if t.name == "roman" && k%2 == 0 {
+					in = []byte(strings.ToLower(string(in)))
+				}
+				if t.name == "size" {
+					in2, _ := t.gen(gen, 1, true)
+					shared = append(shared, in2)
+					snaps = append(snaps, string(in2))
+				}
+				shared = append(shared, in)
+				snaps = append(snaps, string(in))
+			}
+		}
+		shared = append(shared, []byte(`"1\u00a0536\u00a0kB"`), []byte(`"\u0031\u0030 KiB"`), []byte("mcmxciv"), []byte("urn:UUID:f81d4fae-7dec-11d0-a765-00a0c91e6bf6"), []byte("v1.0.0-RC.1+B"))
+		for _, b := range shared[len(snaps):] {
+			snaps = append(snaps, string(b))
+		}
+		rounds := c.Pick(4000, 60000)
+		var stop int32
+		var seenMod int64
+		var witness atomic.Value
+		var wg sync.WaitGroup
+		for g := 0; g < 4; g++ { // watchers
+			wg.Add(1)
+			go func() {
+				defer wg.Done()
+				for atomic.LoadInt32(&stop) == 0 {
+					for i, b := range shared {
+						if cur := string(b); cur != snaps[i] {
+							if atomic.AddInt64(&seenMod, 1) == 1 {
+								witness.Store([2]string{cur, snaps[i]})
+							}
+						}
+					}
+				}
+			}()
+		}
+		var pw sync.WaitGroup
+		for g := 0; g < 12; g++ { // parsers
+			pw.Add(1)
+			go func(g int) {
+				defer pw.Done()
+				for r := 0; r < rounds; r++ {
+					b := shared[(r*7+g)%len(shared)]
+					switch r % 6 {
+					case 0:
+						_, _ = date.DefaultParser(b, 0)
+						_, _ = roman.DefaultParser(b, 0)
+					case 1:
+						_, _ = sem.Parse(b)
+						_, _ = uu.DefaultParser(b, 0)
+					case 2:
+						_, _ = size.DefaultParser(b, size.DefaultRule)
+						_, _ = size.DefaultParser(b, 0)
+					case 3:
+						var n roman.Number
+						_ = n.UnmarshalText(b)
+						_ = roman.Valid(b, 0)
+					case 4:
+						var s size.Size
+						_ = s.UnmarshalJSON(b)
+						var v sem.Ver
+						_ = v.UnmarshalText(b)
+					default:
+						var d date.Date
+						_ = d.UnmarshalText(b)
+						_ = d.UnmarshalBinary(b)
+						var id uu.ID
+						_ = id.UnmarshalText(b)
+					}
+				}
+			}(g)
+		}
+		pw.Wait()
+		atomic.StoreInt32(&stop, 1)
+		wg.Wait()
+		c.Serial("shared-buffers", func(w *rt.W) {
+			w.Eval(int64(12 * rounds * 2))
+			w.ClassN("shared-buffer-parse-rounds", int64(12*rounds))
+			if n := atomic.LoadInt64(&seenMod); n > 0 {
+				wt, _ := witness.Load().([2]string)
+				w.Fail("input-modified-transiently", "shared-buffers", rt.Args("seen", wt[0], "original", wt[1]), fmt.Sprintf("a concurrent reader saw %q (%d observations)", wt[0], n), fmt.Sprintf("%q at all times", wt[1]), "a parser changed the bytes it was given while it ran (and put them back before returning)")
+			}
+		})
+		c.Require("shared-buffer-parse-rounds", 10000)
+	}
+
 	nPool := c.Pick(40000, 1000000)
 	c.Parallel("instantiations", 0, func(w *rt.W) {
 		ts := c17Types()
